@@ -6,6 +6,7 @@ import (
 	"fmt"
 	"net/http"
 	"os"
+	"runtime"
 	"runtime/debug"
 	"sort"
 	"strconv"
@@ -380,6 +381,27 @@ func verifyFile(path string, data []byte, fp *plan.FSPlan) string {
 	return ""
 }
 
+// stallSummary keeps, per goroutine that is inside the module under test, its state line and the
+// innermost frames, so a stall report says what the call is waiting for.
+func stallSummary(dump, modpfx string) string {
+	var out []string
+	for _, g := range strings.Split(dump, "\n\n") {
+		if !strings.Contains(g, modpfx) {
+			continue
+		}
+		lines := strings.Split(g, "\n")
+		keep := []string{lines[0]}
+		for i := 1; i+1 < len(lines) && len(keep) < 9; i += 2 {
+			keep = append(keep, "  "+strings.TrimSpace(lines[i]))
+		}
+		out = append(out, strings.Join(keep, "\n"))
+		if len(out) >= 6 {
+			break
+		}
+	}
+	return strings.Join(out, "\n")
+}
+
 func (w *world) panicSite(stack string) string {
 	lines := strings.Split(stack, "\n")
 	seenPanic := false
@@ -503,6 +525,7 @@ func TestWorker(t *testing.T) {
 	// stall watchdog (outside the bubble, real time): an op in flight that reaches no scheduling
 	// point for a long time is blocked on something the simulated clock cannot release (a lock it
 	// holds itself, a real sleep, a channel nobody writes) or spins inside one library segment.
+	saved2 := os.Stdout
 	stallAfter := 20 * time.Second
 	if v := os.Getenv("VERIF_STALL_S"); v != "" {
 		if n, err := strconv.Atoi(v); err == nil && n > 0 {
@@ -520,6 +543,11 @@ func TestWorker(t *testing.T) {
 			}
 			if k.opsInFlight() > 0 && time.Since(lastChange) > stallAfter {
 				out.Stalled = "no scheduling point reached for " + stallAfter.String() + " of real time with an op in flight"
+				// where is everybody? (the stacks name the lock / channel / loop the call is stuck in)
+				buf := make([]byte, 1<<20)
+				buf = buf[:runtime.Stack(buf, true)]
+				out.Stalled += "\n" + stallSummary(string(buf), w.modpfx)
+				fmt.Fprintf(saved2, "%s\n", buf)
 				writeOut()
 				os.Exit(3)
 			}
@@ -602,6 +630,9 @@ func TestWorker(t *testing.T) {
 	out.SchedFP = strconv.FormatUint(k.fp, 16) + ":" + strconv.FormatInt(k.fpN, 10)
 	if fsSeamUsed {
 		out.Probes["fs_seam_used"] = 1
+	}
+	if k.spawned > 0 {
+		out.Probes["library_goroutines_as_tasks"] = k.spawned
 	}
 	if k.blockEvents > 0 {
 		out.Probes["blocking_ops_bracketed"] = k.blockEvents
